@@ -1,12 +1,19 @@
 /-
-Witness of the known finding C09 `theta_v4/eb19/stream-ne-bytes` on the pinned tree: the full layout statement is false
-(`pack_bits_19` ORs into an unassigned byte).  NOT part of the obligations of the check: on a repaired tree this file
-stops compiling and `bitpack_layouts_ok` holds by its first disjunct; the check reports which case it found.
+Witness of the finding C09 `theta_v4/eb19/stream-ne-bytes` (fixed in /repo by fe8a6ed): `pack_bits_19` of the PINNED tree, kept
+here as a literal (the translation of bit_packing.hpp at the pinned commit: statement 14, `*ptr++ |= static_cast<uint8_t>(values[4] >> 7);`,
+ORs into a byte that was never assigned), has the documented layout only on a zero-filled output block (status 1), so the
+full layout statement was false for the pinned tree.  The obligation over the CURRENT tree is `bitpack_layouts_ok` in
+Gen/BitPack.lean; `bitpack_layouts_current` below records which of its two cases the current source is in.
 -/
 import DSProofs.Gen.BitPack
 namespace DS.Wire.BitPack
 
-theorem bitpack_layouts_full_false : ¬ bitpack_layouts_full := by
-  unfold bitpack_layouts_full; decide +kernel
+def pinned_pack_bits_19 : List PStmt := [⟨true,false,0,.shr 11⟩, ⟨true,false,0,.shr 3⟩, ⟨false,false,0,.shl 5⟩, ⟨true,true,1,.shr 14⟩, ⟨true,false,1,.shr 6⟩, ⟨false,false,1,.shl 2⟩, ⟨true,true,2,.shr 17⟩, ⟨true,false,2,.shr 9⟩, ⟨true,false,2,.shr 1⟩, ⟨false,false,2,.shl 7⟩, ⟨true,true,3,.shr 12⟩, ⟨true,false,3,.shr 4⟩, ⟨false,false,3,.shl 4⟩, ⟨true,true,4,.shr 15⟩, ⟨true,true,4,.shr 7⟩, ⟨false,false,4,.shl 1⟩, ⟨true,true,5,.shr 18⟩, ⟨true,false,5,.shr 10⟩, ⟨true,false,5,.shr 2⟩, ⟨false,false,5,.shl 6⟩, ⟨true,true,6,.shr 13⟩, ⟨true,false,6,.shr 5⟩, ⟨false,false,6,.shl 3⟩, ⟨true,true,7,.shr 16⟩, ⟨true,false,7,.shr 8⟩, ⟨false,false,7,.none⟩]
+
+def pinnedPackRoutines : List (Nat × List PStmt) :=
+  DSGen.BitPackIR.packRoutines.map fun p => if p.1 = 19 then (19, pinned_pack_bits_19) else p
+
+/-- the full layout statement for the pinned `pack_bits_19`: false (kernel-evaluated) -/
+theorem bitpack_layouts_full_false : packStatus pinnedPackRoutines 19 = 1 := by decide +kernel
 
 end DS.Wire.BitPack
